@@ -4,7 +4,7 @@ import itertools
 
 CLAIMED = True
 LEVEL = 'proof'
-LEVEL_TEXT = ('Proof: 20 Coq theorems over the Gallina models of Triangle::points()/bounding_box() (scanline iterator, Scanline::extend, '
+LEVEL_TEXT = ('Proof: 21 Coq theorems over the Gallina models of Triangle::points()/bounding_box() (scanline iterator, Scanline::extend, '
               'bresenham_intersection, sorted_yx, sorted_clockwise, area_doubled as written) and of the Polyline Points iterator (the nth(1) recursion '
               'step by step). Proved for ALL triangles with coordinates within +-8192: the points do not depend on the vertex order (same list); every '
               'lattice point of the closed mathematical triangle is yielded (non-zero area; colinear/coincident vertices: exactly the Bresenham line between '
